@@ -467,9 +467,14 @@ func Main(id, level string, body func(c *Ctx)) {
 		"wall_s": time.Since(c.start).Seconds(), "violations": failedNew,
 	}
 	if c.replayKey == "" {
-		os.MkdirAll(filepath.Join(root, "evidence"), 0o755)
+		evdir := filepath.Join(root, "evidence")
+		if r := os.Getenv("VERIF_REPO"); (r != "" && r != "/repo") || os.Getenv("VERIF_NO_EVIDENCE") != "" {
+			// developer runs against a scratch worktree never overwrite the real evidence
+			evdir = filepath.Join(root, ".work", "evidence-scratch")
+		}
+		os.MkdirAll(evdir, 0o755)
 		eb, _ := json.MarshalIndent(ev, "", " ")
-		if err := os.WriteFile(filepath.Join(root, "evidence", id+".json"), append(eb, '\n'), 0o644); err != nil {
+		if err := os.WriteFile(filepath.Join(evdir, id+".json"), append(eb, '\n'), 0o644); err != nil {
 			c.Fatalf("cannot write evidence: %v", err)
 		}
 	}
